@@ -571,9 +571,11 @@ class AnnotateMonotoneStream(annotcorr.AnnotateStream):
         return G.shape_of(failure)
 
 
+import c09s14     # noqa: E402
+
 PROPERTY = Property(
     pid="C09",
-    streams=[AnnotateMonotoneStream(), HistoryStream(), GrownHistoryStream()],
+    streams=[AnnotateMonotoneStream(), HistoryStream(), GrownHistoryStream()] + c09s14.STREAMS,
     assumptions=[
         "Jinja2 is outside the model: the template is an arbitrary function in the theorems; in the correspondence the model receives "
         "the text real Jinja rendered for the information the model computed",
